@@ -245,9 +245,8 @@ Desc generate(Src& s, bool allow_pool) {
   for (int r = 0; r < 2; r++) {
     Round R;
     for (int i = 0; i < g.ninputs; i++) {
-      uint32_t m = s.below(16);
-      int mode;
-      mode = m <= 13 ? IN_VALUE : m == 14 ? IN_EMPTY : IN_ABSENT;
+      uint32_t m = s.below(32);
+      int mode = m <= 28 ? IN_VALUE : m <= 30 ? IN_EMPTY : IN_ABSENT;
       R.in_mode.push_back(mode);
       R.in_val.push_back(g.is_cond[(size_t)i] ? (int64_t)(1 - (int)s.below(2)) : (int64_t)s.below(1000));
     }
